@@ -44,6 +44,8 @@ STRUCT = {
     "AFFINE": RT.rule_affine,
     "ERR-SPAN": RT.rule_err_span,
     "ORDER-ARMS": RT.rule_order_arms,
+    "CONTAINER-PROV": RT.rule_container_prov,
+    "NONCONSUMPTION-FWD": RT.rule_nonconsumption,
     "CHAR-SIB": RX.rule_char_sib,
     "REGEX-ANCHOR": RX.rule_regex_anchor,
     "READER-SIB": RI.rule_reader_sib,
@@ -56,7 +58,7 @@ STRUCT = {
 PROP_RULES = {
     "C01": ["K", "D:POISON"],
     "C02": ["K", "D:POISON"],
-    "C03": ["ENTRY", "K"],
+    "C03": ["ENTRY", "K", "STREAM"],
     "C04": ["MODE-PAIR", "MODE-PURE", "K", "D:POISON"],
     "C05": ["D:POISON", "D:KEEP", "D:LIFO", "HOOKS-SAVE-REWIND", "HOOKS-WRITERS", "MODE-PURE", "K"],
     "C07": ["K", "SPAN-PROV", "READER-SIB", "INPUT-MISC"],
@@ -72,8 +74,8 @@ PROP_RULES = {
     "C16": ["K", "SUB-INPUT", "D:ALT-LINEAR", "D:PFAIL"],
     "C17": ["K", "D:ALT-LINEAR", "D:ALT-POS", "ERR-SPAN"],
     "C18": ["HOOKS-WRITERS", "HOOKS-TOKEN", "HOOKS-SAVE-REWIND", "SUB-INPUT", "D:POISON", "D:KEEP", "K"],
-    "C19": ["UNSAFE-INV", "MAYBEUNINIT"],
-    "C20": ["D:PFAIL", "RECURSE", "INPUT-MISC", "K"],
+    "C19": ["UNSAFE-INV", "MAYBEUNINIT", "CONTAINER-PROV"],
+    "C20": ["D:PFAIL", "RECURSE", "INPUT-MISC", "NONCONSUMPTION-FWD", "K"],
 }
 
 # properties whose typestate disciplines are restricted to the bodies of their own contract groups
